@@ -57,7 +57,7 @@ theorem Mono.closed (n : Nat) : Sched.Closed0 (Mono n) where
     · exact Nat.le_trans (show n ≤ (Sched.fileStartStep s t now tk).fdts.length from h) (len_publishTry _ now)
     · exact h
   pkt := fun _ _ _ _ _ _ _ _ _ _ h _ _ _ _ _ => h
-  done := fun s _ _ c now _ _ _ h _ _ _ _ _ => by
+  done := fun s _ _ c now _ _ _ h _ _ _ => by
     show n ≤ (Sched.transferDoneFile s c.key now).fdts.length
     rw [len_transferDoneFile]; exact h
   fdtPkt := fun s _ c _ _ _ _ _ _ h _ _ _ _ _ => by
